@@ -67,3 +67,46 @@ Proof.
     (split; [intros other Hne; apply assoc_get_set_other; congruence|reflexivity]).
 Qed.
 Print Assumptions C03_assign_writes_one_slot.
+
+(* ---- calls of the pure built-ins toa and aton, as compiled and run by the VM model ---- *)
+Require Import Calc.ExprSem Calc.ExprVM Calc.ExprCorrect Calc.ExprSession Calc.CompileWf Calc.Session
+        Calc.StmtSem Calc.StmtRel Calc.StmtCorrect Calc.StmtTop Calc.StmtTwin.
+
+(* the value depends on the argument value only; nothing but the allocation counter changes *)
+Theorem C03_pure_builtin_depends_on_argument_only : forall b W1 W2 x,
+  b <> BWrite ->
+  snd (bop_sem b W1 x) = snd (bop_sem b W2 x) /\ fst (bop_sem b W1 x) = W1 /\ fst (bop_sem b W2 x) = W2.
+Proof. intros b W1 W2 x Hb. destruct b; [contradiction|split; [reflexivity|split; reflexivity]..]. Qed.
+Print Assumptions C03_pure_builtin_depends_on_argument_only.
+
+(* the compiled call nm(e) computes it from ANY machine state — any stack depth below it, any frames, any
+   cells in the dead part of the stack, whether or not the stack has to grow for the call (SpecS quantifies
+   over every memory m and every machine v holding the code): in a loop body, in a block, in a branch *)
+Theorem C03_compiled_builtin_call_anywhere : forall Bf nm b e d s s' w,
+  bop_of_name nm = Some b -> pure e = true -> wfcs s ->
+  Compile.comp (NCall (NName nm) [e]) 0 (tfl d) s = COk (w, s') ->
+  SpecS Bf (NCall (NName nm) [e]) d 0 s s' w.
+Proof.
+  intros Bf nm b e d s s' w Hb Hp Hwf H.
+  apply (comp_stmt Bf (NCall (NName nm) [e])); [cbn [wstmt is_bcall]; rewrite Hb; exact Hp|reflexivity|exact Hwf|exact H].
+Qed.
+Print Assumptions C03_compiled_builtin_call_anywhere.
+
+(* and between statements: two sessions with the same global data, whatever happened before in either
+   (other code and data offsets, other allocation counters, other output, other stack contents), get the
+   same result from the same call *)
+Theorem C03_compiled_builtin_call_any_history : forall Bf nm b e mc1 c1 m1 mc2 c2 m2 o1 o2 n W1' res,
+  bop_of_name nm = Some b -> pure e = true -> nobe e = true -> wfb (NCall (NName nm) [e]) = true ->
+  bready Bf mc1 c1 m1 -> bready Bf mc2 c2 m2 ->
+  wrel Bf Bf o1 o2 (wof (mc_vm mc1)) (wof (mc_vm mc2)) ->
+  ssem Bf n (wof (mc_vm mc1)) (NCall (NName nm) [e]) = Some (W1', res) ->
+  stuck (snd (run_tree false mc1 (NCall (NName nm) [e]))) \/ stuck (snd (run_tree false mc2 (NCall (NName nm) [e]))) \/
+  (tree_agrees (snd (run_tree false mc1 (NCall (NName nm) [e]))) res /\
+   tree_agrees (snd (run_tree false mc2 (NCall (NName nm) [e]))) res).
+Proof.
+  intros Bf nm b e mc1 c1 m1 mc2 c2 m2 o1 o2 n W1' res Hb Hp Hn Hwfb R1 R2 HR HM.
+  assert (Hw : wstmt (NCall (NName nm) [e]) = true) by (cbn [wstmt is_bcall]; rewrite Hb; exact Hp).
+  destruct (stmt_relocation Bf _ mc1 c1 m1 mc2 c2 m2 o1 o2 n W1' res R1 R2 Hw Hwfb Hn HR HM) as [S|[S|(A1 & A2 & _)]];
+    [left; exact S|right; left; exact S|right; right; split; assumption].
+Qed.
+Print Assumptions C03_compiled_builtin_call_any_history.
